@@ -41,6 +41,9 @@ type node struct {
 	MaskBad          int `json:"maskBad"`
 }
 
+// rapidDepthLimit is rapidproto's depthLimit (RapidGen!Limit): messages nested deeper are not filled.
+const rapidDepthLimit = 10
+
 var pathRe = regexp.MustCompile(`^[a-z]+([.][a-z]+){0,2}$`)
 
 const mappedString = "MAPPED"
@@ -74,7 +77,10 @@ func facts(m protoreflect.Message, depth int, mapped, withAny bool, out *[]node)
 		return
 	case "google.protobuf.FieldMask":
 		if fm := new(fieldmaskpb.FieldMask); concrete(fm) {
-			if len(fm.Paths) < 1 || len(fm.Paths) > 5 {
+			// (1..5 paths are drawn for a FieldMask the generator fills; one that sits below the
+			// nesting limit -- packed in an Any at the last level -- is left empty, nothing having
+			// been drawn for it)
+			if (len(fm.Paths) < 1 && depth <= rapidDepthLimit) || len(fm.Paths) > 5 {
 				n.MaskBad++
 			}
 			for _, p := range fm.Paths {
